@@ -167,6 +167,15 @@ PECase(c) ==
             LET v == EvalPE(G, Expand(G, c.decoded[j].sw), d) IN v # Undef /\ v = EvalKernel(c.kernels[j], d)>>
   >>)
 
+(* ---------------- C12: constants / globals re-laid-out at compile time ---------------- *)
+RECURSIVE RowMajorIdx(_, _, _)
+RowMajorIdx(shape, idx, d) == IF d > Len(shape) THEN 0 ELSE idx[d] * Prod(shape, d + 1) + RowMajorIdx(shape, idx, d + 1)
+Relayout(c) ==
+  First(<<
+    <<"SameNumberOfElements", Len(c.new) = Len(c.old)>>,
+    <<"LogicalValuesAtNewPositions", \A idx \in Box(c.shape) : c.new[Addr(c.L, idx) + 1] = c.old[RowMajorIdx(c.shape, idx, 1) + 1]>>
+  >>)
+
 EqCase(c) == First(<< <<c.clause, c.x = c.y>> >>)
 
 JudgeObj(c) ==
@@ -185,6 +194,7 @@ JudgeObj(c) ==
     [] c.kind = "regmap" -> MapCase(c)
     [] c.kind = "dispatchdecl" -> DispatchDecl(c)
     [] c.kind = "pe" -> PECase(c)
+    [] c.kind = "relayout" -> Relayout(c)
     [] c.kind = "chosenlayout" -> ChosenLayout(c)
     [] OTHER -> "machinery:unknown-kind"
 
